@@ -314,7 +314,7 @@ var sbToks = append([]string{"allow-nothing", "ALLOW-SCRIPTS", "allow-scripts;",
 
 func genC12(t *rapid.T) *Case {
 	spec := genSpec(t, &SpecOpts{MaxOps: 6})
-	els := []string{"img", "audio", "video", "link", "iframe", "script"}
+	els := []string{"img", "audio", "video", "link", "iframe", "script", "image"}
 	spec.Ops = append(spec.Ops, Op{Kind: "AllowAttrs", Attrs: []string{"src", "href", "crossorigin", "sandbox", "id"}, ValRe: -1, Scope: "els", Names: els})
 	if rapid.IntRange(0, 2).Draw(t, "linkOpt") == 0 {
 		// link is also one of the elements the rel / target hardening works on: the two passes over
@@ -434,7 +434,7 @@ func checkC12(c *Case, r *Rec) error {
 			continue
 		}
 		switch tk.Name {
-		case "audio", "img", "link", "video", "script":
+		case "audio", "img", "image", "link", "video", "script": // (an image start tag becomes an img element)
 			if m.crossOrigin {
 				affected++
 				n := 0
